@@ -295,4 +295,9 @@ def copy_origin(from_node, to_node):
     to_node = (to_node,)
   for node in to_node:
     for n in ast.walk(node):
+      # ast.Load()/Store()/operator nodes are singletons that CPython's parser
+      # shares between all trees: annotating them leaks the origin everywhere.
+      if isinstance(n, (ast.expr_context, ast.boolop, ast.operator,
+                        ast.unaryop, ast.cmpop)):
+        continue
       anno.setanno(n, anno.Basic.ORIGIN, origin)
